@@ -43,7 +43,7 @@ def keys_for(base):
 # one still in its (slow) handler.  Only offered where the scenario's handler is slow.
 LIFETIME = 2.0 * (2 ** 4 - 1) * 1.5 + (2 * 100.0 + 2.0)   # MAX_TRANSMIT_SPAN + MAX_RTT = 247 s
 EPS = 0.001
-KINDS = ("fast", "slow", "fail", "supp", "slowfail")
+KINDS = ("fast", "slow", "fail", "supp", "slowfail", "slownon")      # slownon: the separate response is sent non-confirmably
 
 
 class St:
@@ -83,7 +83,14 @@ def build_world(kind, con, mid0):
             note(request)
             await asyncio.sleep(0.5)
             raise RuntimeError("boom")
+    class SlowNon(resource.Resource):
+        async def render_get(self, request):
+            import aiocoap
+            note(request)
+            await asyncio.sleep(0.5)
+            return Message(payload=b"slow", transport_tuning=aiocoap.Unreliable)
     site = resource.Site()
+    site.add_resource(["slownon"], SlowNon())
     site.add_resource(["fast"], Fast())
     site.add_resource(["slow"], Slow())
     site.add_resource(["fail"], Fail())
@@ -95,7 +102,7 @@ def build_world(kind, con, mid0):
             note(request, True)
             return Message(payload=b"fast-from-2")
     site2 = resource.Site()
-    for nm in ("fast", "slow", "fail", "slowfail"):
+    for nm in ("fast", "slow", "fail", "slowfail", "slownon"):
         site2.add_resource([nm], Fast2())
     st.srv2 = w.add_context("srv2", *SRV2, site=site2)
     st.two = False
@@ -126,7 +133,7 @@ def request_bytes(st, key, alt=False):
 
 def events_of(st):
     w = st.world
-    evs = [("copy", i) for i in range(len(KEYS) if st.kind in ("slow", "slowfail") else 4)]
+    evs = [("copy", i) for i in range(len(KEYS) if st.kind in ("slow", "slowfail", "slownon") else 4)]
     if KEYS[0] in st.model:
         evs.append(("copy", 0, "alt"))
     if st.two:
@@ -362,7 +369,7 @@ def run(tier, seed, jobs):
                     if not con and mid0 != 0x7000:
                         continue
                     # depth 4 where separate responses (own message IDs, timers) make longer histories matter, 3 elsewhere
-                    d = 4 if (con and kind in ("slow", "slowfail")) else 3
+                    d = 4 if (con and kind in ("slow", "slowfail", "slownon")) else 3
                 else:
                     d = 6 if con else 5
                 work.append((kind, con, mid0, d))
